@@ -179,6 +179,15 @@ func runTarjan(c *Ctx) {
 				if x.Key == ssa.Value(vis.Params[1]) {
 					if _, ok := x.Map.Type().Underlying().(*types.Map); ok {
 						stored = true
+						// the counter may be the index map's own size: the stored index is len(indexMap)+1, read before the
+						// store (1-based, so that 0 stays "not visited"; a vertex is visited once, so the size grows by one)
+						if b, ok := x.Value.(*ssa.BinOp); ok && b.Op == token.ADD {
+							if k, isK := core.ConstInt(b.Y); isK && k == 1 {
+								if lc, ok := b.X.(*ssa.Call); ok && core.CalleeName(lc.Common()) == "builtin.len" && core.Path(lc.Common().Args[0]) == core.Path(x.Map) {
+									inc = true
+								}
+							}
+						}
 					}
 				}
 			case *ssa.Store:
